@@ -170,7 +170,7 @@ PROPS = {
                 "not change by themselves (release file, cmdline, environ, auxv, maps, limits) in that request's dump are compared byte for byte with the "
                 "fresh writer's dump of the same parked target. "
                 "Distinct = distinct (k, option vector, summary length). In a quarter of the histories the target maps the page behind a partly readable application region before the last request; only that request is then compared with the fresh writer's. In a fifth of the histories the requests fail inside the thread-list writer (the crash context's instruction pointer lies in a page behind the end of a mapped file) until the file has grown before the last request.",
-        "expected_tags": ["k.2", "k.3", "k.4", "k.5", "cfg.crash", "cfg.app", "cfg.skip", "raw.compared", "target.mutated", "target.grown"],
+        "expected_tags": ["k.2", "k.3", "k.4", "k.5", "cfg.crash", "cfg.app", "cfg.skip", "raw.compared", "target.mutated", "target.grown", "writer.reconfigured"],
         "trusted_base": ["the target is blocked in raw syscalls, so its state is the same at every request"],
         "assumptions": ["Linux writer only (src/mac has the same field but cannot be built here)"],
         "explanation": "C19 theorems over the model of the writer's per-request state: with the reset on entry an image is independent of the state left by "
@@ -304,7 +304,7 @@ PROPS = {
                 "that is killed and reaped while the dump is under way (from the destination, when the n-th directory entry is written, n = 6 … 16: every later "
                 "step that copies one of the target's files or reads its memory must be listed under its own label, no completed step may be), nothing induced. The soft-error stream is parsed with serde_json and reduced to its list of variant paths. "
                 "Distinct = (scenario, mask, #threads, principal). Also a linker list with an object name that is not UTF-8 (badlink). Also: the blamed thread traced by somebody else on a writer that served a request before (traced-reused), compared with a fresh writer's dump of the same situation.",
-        "expected_tags": ["scen.faults", "scen.badname", "scen.baddso", "scen.traced", "scen.none", "scen.killed", "killed.checked", "scen.badlink", "scen.traced-reused", "mask.0", "mask.31"],
+        "expected_tags": ["scen.faults", "scen.badname", "scen.baddso", "scen.traced", "scen.none", "scen.killed", "killed.checked", "scen.badlink", "scen.traced-reused", "scen.alltraced", "mask.0", "mask.31"],
         "extra_theorems": ["plan_best_effort_soft", "plan_soft_errors_last"],
         "trusted_base": ["serde_json emits well-formed JSON (the harness re-parses it)", "error-graph pushes a sub-list to its parent on drop iff it is non-empty", "failspot"],
         "assumptions": ["the stop time-out (StopProcessFailed/Timeout) may appear on its own when a thread is traced by another process: timing dependent, tolerated in the natural scenarios"],
